@@ -18,6 +18,8 @@ RULE = ("the arms of `macro_rules! fake` are parsed from the source at check tim
 
 RUNS = ["m", "n", "m,m", "m,m,m", "m,n", "m,m,n", "", "m,m;m,m", "m;m,m"]
 LONG = ["m,n,m,m,n,m;m", "n,n,m;m,m"]
+# runs whose `times:` expression evaluates to a different budget in each lifetime of the same call site
+VARBUDGET = [("3:1", "m,m,m;m"), ("1:3", "m;m,m,m"), ("3:1", "m,m,m;m,m"), ("0:2", ";m,m")]
 
 
 def run(tier, seed):
@@ -48,16 +50,18 @@ def run(tier, seed):
     def one(job):
         i, c, label, sh, b, exe = job
         unwinds = "extern" not in c["qual"]
-        runs = RUNS + (LONG if unwinds else [])
+        runs = [(b, x) for x in RUNS + (LONG if unwinds else [])]
+        if b == 2:
+            runs += VARBUDGET
         results = []
-        for spec in runs:
+        for bb, spec in runs:
             try:
-                p = subprocess.run([exe, str(b), spec], stdout=subprocess.PIPE, stderr=subprocess.PIPE, text=True, timeout=120)
+                p = subprocess.run([exe, str(bb), spec], stdout=subprocess.PIPE, stderr=subprocess.PIPE, text=True, timeout=120)
             except subprocess.TimeoutExpired:
                 results.append((spec, "inconclusive", "watchdog", {}))
                 continue
             got = armsgen.normalize(p.stdout, i)
-            want = armsgen.model_run(c, b, spec)
+            want = armsgen.model_run(c, bb, spec)
             if want and want[-1] == "ABORT":
                 ok = got == want[:-1] and p.returncode == -6
                 what = "aborting-call"
@@ -74,7 +78,7 @@ def run(tier, seed):
                     k += 1
                 g = got[k] if k < len(got) else "<end, exit %s>" % core.signame(p.returncode)
                 w = w2[k] if k < len(w2) else "<end>"
-                results.append((spec, "violated", sig_of(g, w), {"arm": label, "run": spec, "budget": b, "line": k, "got": g, "want": w, "trace": got[:40], "stderr": p.stderr[-300:], "status": core.signame(p.returncode) if p.returncode else "exit0", "kind": what}))
+                results.append((spec, "violated", sig_of(g, w), {"arm": label, "run": spec, "budget": bb, "line": k, "got": g, "want": w, "trace": got[:40], "stderr": p.stderr[-300:], "status": core.signame(p.returncode) if p.returncode else "exit0", "kind": what}))
         return job, results
 
     with concurrent.futures.ThreadPoolExecutor(max_workers=core.NCPU) as pool:
